@@ -77,6 +77,63 @@ def replayO (idx : Nat → Nat) : St → List (Nat × Bool) → List Ev → List
 
 def parseBytes (j : Json) : Except String (Option (List Nat)) := opt natList j
 
+def sevToJson : SEv → Json
+  | .cachedRead => Json.str "cachedRead" | .request => Json.str "request" | .acquire => Json.str "acquire"
+  | .wait => Json.str "wait" | .releaseEarly => Json.str "releaseEarly" | .enterDownload => Json.str "enterDownload"
+  | .done => Json.str "done" | .raised => Json.str "raised" | .release => Json.str "release" | .noRelease => Json.str "noRelease"
+
+/-- replay a schedule of the semaphore system; after every step: (free, holders, downloads) -/
+def sreplay : SSt → List Nat → List (SEv × Nat × Nat × Nat) → SSt × List (SEv × Nat × Nat × Nat) × Option Nat
+  | s, [], acc => (s, acc.reverse, none)
+  | s, i :: is, acc =>
+    match sstep s i with
+    | none => (s, acc.reverse, some acc.length)
+    | some (ev, s') => sreplay s' is ((ev, s'.free, s'.holders, s'.downloads) :: acc)
+
+def fileToJson : FileSt → Json
+  | .absent => Json.arr #[Json.str "absent"]
+  | .opened w => Json.arr #[Json.str "opened", ofList ofNat w]
+  | .closed w => Json.arr #[Json.str "closed", ofList ofNat w]
+
+def readToJson : DiskRead → Json
+  | .complete w => Json.arr #[Json.str "complete", ofList ofNat w]
+  | .partialSeen w => Json.arr #[Json.str "partial", ofList ofNat w]
+  | .zeroLength => Json.arr #[Json.str "zeroLength"]
+  | .missing => Json.arr #[Json.str "missing"]
+
+def devToJson : DEv → Json
+  | .base ev obs => Json.arr #[Json.str "base", evToJson ev, ofOpt readToJson obs]
+  | .chunk k b => Json.arr #[Json.str "chunk", ofNat k, ofNat b]
+  | .close k => Json.arr #[Json.str "close", ofNat k]
+
+/-- replay of the file-level system with the implementation's answers for the unlocked membership test (as `replayO`) -/
+def dreplayO (enc : Nat → List Nat) (idx : Nat → Nat) : DSt → List (Nat × DAct × Bool) → List DEv → DSt × List DEv × Option Nat
+  | s, [], acc => (s, acc.reverse, none)
+  | s, (i, a, sees) :: is, acc =>
+    let s1 : DSt := match s.base.cs[i]? with
+      | some c =>
+        match c.pc with
+        | .rmChk k f _ => if a == DAct.base then { s with base := { s.base with cs := s.base.cs.set i { c with pc := .rmChk k f sees } } } else s
+        | _ => s
+      | none => s
+    match dstep enc idx s1 i a with
+    | none => (s1, acc.reverse, some acc.length)
+    | some (ev, s') => dreplayO enc idx s' is (ev :: acc)
+
+def parseAct (j : Json) : Except String DAct := do
+  let l ← arr j
+  match l with
+  | [t] =>
+    match (← str t) with
+    | "base" => pure .base
+    | "close" => pure .close
+    | s => throw s!"bad act {s}"
+  | [t, b] =>
+    match (← str t) with
+    | "chunk" => pure (.chunk (← nat b))
+    | s => throw s!"bad act {s}"
+  | _ => throw "bad act"
+
 def handle (req : Json) : Except String Json := do
   let op ← str (← field req "op")
   match op with
@@ -152,6 +209,51 @@ def handle (req : Json) : Except String Json := do
       | [a, b, c] => pure ((← bool a), (← bool b), (← bool c))
       | _ => throw "bad read")
     pure (obj [("permits", ofOpt ofNat (semRun p rs))])
+  | "semsys" =>
+    let p ← nat (← field req "permits")
+    let progs ← (← arr (← field req "progs")).mapM (fun pj => do
+      (← arr pj).mapM (fun j => do
+        let l ← arr j
+        match l with
+        | [a, b, c] => pure ({ c1 := (← bool a), c2 := (← bool b), exc := (← bool c) } : SRead)
+        | _ => throw "bad read"))
+    let sched ← natList (← field req "sched")
+    let (s, evs, stuck) := sreplay (sinit p progs) sched []
+    pure (obj [
+      ("events", ofList (fun (e : SEv × Nat × Nat × Nat) => Json.arr #[sevToJson e.1, ofNat e.2.1, ofNat e.2.2.1, ofNat e.2.2.2]) evs),
+      ("stuck", ofOpt ofNat stuck),
+      ("free", ofNat s.free), ("holders", ofNat s.holders), ("measure", ofNat s.measure),
+      ("terminal", Json.bool s.allTerminal),
+      ("next", ofList (fun i => match sstep s i with | none => Json.null | some (ev, _) => sevToJson ev) (List.range s.cs.length))])
+  | "dreplay" =>
+    let idxl ← natList (← field req "idx")
+    let idx : Nat → Nat := fun k => idxl.getD k (1000 + k)
+    let progs ← (← arr (← field req "progs")).mapM (fun p => do
+      (← arr p).mapM (fun seg => do (← arr seg).mapM parseInstr))
+    let parts ← nat (← field req "parts")
+    let enc : Nat → List Nat := fun _ => List.range parts
+    let sched ← (← arr (← field req "sched")).mapM (fun j => do
+      let l ← arr j
+      match l with
+      | [i, a, sees] => pure ((← nat i), (← parseAct a), (← bool sees))
+      | _ => throw "bad sched entry")
+    let (s, evs, stuck) := dreplayO enc idx (dinit progs) sched []
+    let keys := List.range idxl.length
+    let dinv := keys.all (fun k =>
+      match s.base.cache k with
+      | some v => s.file k == FileSt.closed (enc v)
+      | none => partialWriter s.base k || s.file k == FileSt.absent)
+    pure (obj [
+      ("events", ofList devToJson evs),
+      ("stuck", ofOpt ofNat stuck),
+      ("files", ofList (fun k => fileToJson (s.file k)) keys),
+      ("cache", ofList (fun k => ofOpt ofNat (s.base.cache k)) keys),
+      ("dinv", Json.bool dinv),
+      ("nextActs", match stuck with
+        | some _ => ofList (fun i => Json.arr #[
+            Json.bool (dstep enc idx s i .base).isSome, Json.bool (dstep enc idx s i .close).isSome,
+            Json.arr ((List.range (parts + 1)).filter (fun b => (dstep enc idx s i (.chunk b)).isSome) |>.map ofNat).toArray]) (List.range s.base.cs.length)
+        | none => Json.null)])
   | _ => throw s!"unknown op {op}"
 
 end Coba.C19.Driver
